@@ -3,7 +3,7 @@ import ast
 
 from ..core import Mutant, norm
 from ..absint import Domain, Interp, NORMAL, RETURN, RAISE, is_raise
-from ..astutil import unparse
+from ..astutil import unparse, keytext
 from ..index import dotted, walk_local
 
 EXPLANATION = ("C27: paired-write typestate over every path of the four Namer mutators: a path that returns False or raises has "
@@ -124,7 +124,7 @@ def check(run):
             bad = verdict(facts, writes, rv, oc)
             seen_true = seen_true or (rv is True and not is_raise(oc))
             nwrites += len(writes) if rv is True else 0
-            label = "%s|writes=%s" % ("raise" if is_raise(oc) else "return %s" % rv, ",".join("%s:%s[%s]" % (w[0], w[1].split("._")[-1], w[2]) for w in writes) or "none")
+            label = "%s|writes=%s" % ("raise" if is_raise(oc) else "return %s" % rv, ",".join("%s:%s[%s]" % (w[0], w[1].split("._")[-1], keytext(f, w[2])) for w in writes) or "none")
             if label not in classes or bad:
                 classes[label] = (bad, tr)
         for label, (bad, tr) in sorted(classes.items()):
@@ -142,7 +142,7 @@ def check(run):
                         hit = n
             if hit is not None:
                 ok = name in ("__init__", "clearAllNameAddr", "addNameAddr", "remNameAddr", "changeAddrAtName", "changeNameAtAddr")
-                run.ob("C27.R2", "%s:writes-maps:%s" % (f.fq, norm(hit)), ok, run.site(f, hit), "" if ok else "the registry maps are written outside the mutators")
+                run.ob("C27.R2", "%s:writes-maps:%s" % (f.fq, keytext(f, hit)), ok, run.site(f, hit), "" if ok else "the registry maps are written outside the mutators")
     clr = ix.method(cls, "clearAllNameAddr")
     both = {dotted(t) for n in walk_local(clr.node) if isinstance(n, ast.Assign) for t in n.targets}
     run.ob("C27.R2", "%s:clears-both" % clr.fq, both >= {A, B}, run.site(clr), "" if both >= {A, B} else "clearAllNameAddr resets only %s" % sorted(both))
